@@ -292,6 +292,12 @@ def spaces(tier, variant, seed):
         a = dense(n, 61)
         b = dense(m, 62) | 1
         t3 = m // 3
+
+        def band(v, nl_, lo, hi):
+            """all-ones limbs [lo*nl_, hi*nl_) (fractions of the limb count), keeping the top two limbs"""
+            l0, l1 = int(lo * nl_), min(int(hi * nl_), nl_ - 2)
+            return v | (al.ones(l1 - l0) << (64 * l0))
+
         if fam == "ones_upper":
             b |= al.ones(t3) << (64 * (m - t3 - 2))
         elif fam == "ones_both":
@@ -302,6 +308,23 @@ def spaces(tier, variant, seed):
         elif fam == "planted":
             gpl = dense(n // 14, 63) | 1
             a, b = (dense(n - n // 14, 64) | 1) * gpl, (dense(m - n // 14, 65) | 1) * gpl
+        elif fam.startswith("band:"):
+            # band:<which>:<lo>:<hi>  -- the end-around folds of hgcd_matrix_apply carry only through such bands
+            _, which, lo, hi = fam.split(":")
+            if "a" in which:
+                a = band(a, n, float(lo), float(hi))
+            if "b" in which:
+                b = band(b, m, float(lo), float(hi))
+            if "s" in which and a > b:        # make the banded operand the smaller one of two equal-length operands
+                a, b = b | 1, a
+                if b % 2 == 0:
+                    b += 1
+            if "p" in which:                  # and a planted common factor (rounding down touches only the low limbs, the bands stay)
+                gpl = dense(n // 14, 63) | 1
+                a -= a % gpl
+                b -= b % gpl
+                if (b // gpl) % 2 == 0:
+                    b -= gpl
         z = [lib.Z() for _ in range(5)]
         z[3].set(a)
         z[4].set(b)
@@ -315,6 +338,8 @@ def spaces(tier, variant, seed):
         f_gcd(z[1].p, z[3].p, z[4].p)
         if z[1].get() != g:
             R.fail("mpz_gcd", "%d x %d limbs (%s): differs from the certified gcd" % (n, m, fam))
+        if z[1].get() != math.gcd(a, b):
+            R.fail("mpz_gcd", "%d x %d limbs (%s): differs from the reference gcd" % (n, m, fam))
         if z[3].get() != a or z[4].get() != b:
             R.fail("mpz_gcd", "input modified")
         return (n, m, fam, g == 1)
@@ -323,8 +348,14 @@ def spaces(tier, variant, seed):
         th_ = rt.parse_mparam(os.path.join(lib.META["dir"], "gmp-mparam.h")).get("hgcd_reduce_threshold", 6852)
         big_ns = [(3 * th_ + 60, 3 * th_ + 50), (2 * th_ + 100, 2 * th_ + 90)] if quick else [(3 * th_ + 60, 3 * th_ + 50), (2 * th_ + 100, 2 * th_ + 90), (4 * th_, 3 * th_ + 7), (3 * th_ + 444, 2 * th_)]
         if th_ <= 8000:
-            sp.append(Space("pin_hgcd_reduce_regime", [(n, m, fam) for (n, m) in big_ns for fam in ("dense", "ones_upper", "ones_both", "zeros_upper", "planted")], hg_cases, hg_one,
-                            "mpz_gcdext / mpz_gcd on operands of 2x and 3x HGCD_REDUCE_THRESHOLD limbs (dense, long all-ones / all-zero bands in the upper third, planted common factor): certificate oracle"))
+            hb = [(n, m, fam) for (n, m) in big_ns for fam in ("dense", "ones_upper", "ones_both", "zeros_upper", "planted")]
+            eq_ns = [3 * th_ + 60, 2 * th_ + 100] + ([] if quick else [4 * th_ + 3, 3 * th_ + 700])
+            for n in eq_ns:
+                for which in ("b", "a", "ab", "bs", "abs", "bp", "bsp", "abp"):
+                    for lo, hi in ((0.667, 1.0), (0.5, 1.0), (0.6, 0.9), (0.70, 0.95), (0.4, 0.8)):
+                        hb.append((n, n, "band:%s:%s:%s" % (which, lo, hi)))
+            sp.append(Space("pin_hgcd_reduce_regime", hb, hg_cases, hg_one,
+                            "mpz_gcdext / mpz_gcd on operands of 2x and 3x HGCD_REDUCE_THRESHOLD limbs (dense, long all-ones / all-zero bands in the upper third, planted common factor; equal-length operands with all-ones bands over 5 limb ranges of the upper half in a, b, both, and in the smaller operand): certificate oracle"))
 
     # ---- mpn level ----
     f_ngcd = lib.fn("mpn_gcd", c_long, P, P, c_long, P, c_long)
